@@ -78,6 +78,20 @@ def _cases_core(rng, tier):
                         " ".join(words_[:6]) + "  " + " ".join(words_[6:]), "\u00a0".join(words_), "\u3000".join(words_),
                         MN[0].replace(" ", "  ", 1), MN[3] + "\r\n"):
         pairs.append((sep_variant, rng.choice(["", "TREZOR"])))
+    # invisible / format / control characters in front of, behind and inside either text (byte-order mark, zero-width
+    # space and joiners, word joiner, soft hyphen, directional marks, NUL, line separators): NFKD keeps every one of
+    # them, so they are part of what is hashed — a "clean-up" of pasted text changes the wallet
+    INVIS = ["\ufeff", "\u200b", "\u200c", "\u200d", "\u2060", "\u00ad", "\u200e", "\u200f", "\u202a", "\u202c",
+             "\u2066", "\u2069", "\u034f", "\u061c", "\u180e", "\ufffd", "\x00", "\x7f", "\x1b", "\ufe0f"]
+    inv = INVIS + [c for c in common.EDGE_CHARS if c not in INVIS]
+    if tier == "quick":
+        inv = ["\ufeff", "\u200b"] + rng.sample(inv[2:], 8)
+    for c in inv:
+        where = rng.randrange(3) if tier == "quick" else None
+        for k_, (m, p) in enumerate([(c + MN[0], "TREZOR"), (MN[0] + c, ""), (MN[0].replace(" ", " " + c, 1), "x"),
+                                     (MN[0], c + "TREZOR"), (MN[0], "TREZOR" + c), (MN[0], c), (c, c)]):
+            if where is None or k_ % 3 == where or k_ in (0, 3):
+                pairs.append((m, p))
     for m, p in pairs:
         yield "seed %s %s %s %s" % (sx(m), sx(nf(m)), sx(p), sx(nf(p))), "seed"
         t = rng.choice("01")
